@@ -179,6 +179,13 @@ func (t *Tokenizer) Next() Token {
 	}
 }
 
+// Drain reads and discards all remaining tokens. After that the goroutine started by
+// Start has terminated. It needs to be called if the tokens are not read up to the EOF.
+func (t *Tokenizer) Drain() {
+	for range t.tok {
+	}
+}
+
 func (t *Tokenizer) getLine() Line {
 	return t.line
 }
